@@ -70,7 +70,7 @@ fn any_offsets<const K: usize>() -> [i32; K] {
 //   last offset <= values.len();  every value bytes[o[i]..o[i+1]] is well-formed UTF-8 (utf8_wf above:
 //   in particular no value starts or ends inside a code point);  validity length == number of values;
 // and the accessors read back the model: len, value(i) (bytes), value_length(i), is_null(i), null_count.
-// @unit name=utf8_try_new_sound props=C09,C01 kind=bounded bound=offsets=3_value_bytes=4_validity<=4_bits fns=GenericByteArray::try_new,GenericStringType::validate,GenericByteArray::value,GenericByteArray::value_length timeout=900 mem=4
+// @unit name=utf8_try_new_sound props=C09,C01 kind=bounded bound=offsets=3_value_bytes=4_validity<=4_bits fns=GenericByteArray::try_new,GenericStringType::validate,GenericByteArray::value,GenericByteArray::value_length timeout=900 mem=4 tier=thorough
 #[kani::proof]
 #[kani::unwind(8)]
 #[kani::stub(alloc::fmt::format, stub_format)]
@@ -118,7 +118,7 @@ fn utf8_try_new_sound() {
 // NOTE (documented strictness, not a defect): the constructor validates the *whole* values buffer, so
 // ill-formed bytes that no value references (before the first / after the last offset) are rejected too;
 // the precondition therefore asks for a well-formed buffer, which is stronger than the format requires.
-// @unit name=utf8_try_new_accepts props=C09 kind=bounded bound=offsets=3_value_bytes=4 fns=GenericByteArray::try_new,GenericStringType::validate timeout=900 mem=4
+// @unit name=utf8_try_new_accepts props=C09 kind=bounded bound=offsets=3_value_bytes=4 fns=GenericByteArray::try_new,GenericStringType::validate timeout=900 mem=4 tier=thorough
 #[kani::proof]
 #[kani::unwind(8)]
 #[kani::stub(alloc::fmt::format, stub_format)]
@@ -150,7 +150,7 @@ fn utf8_try_new_accepts() {
 // symbolic offsets (valid OffsetBuffer), a values buffer that is a window of symbolic length <= 6 and an
 // optional validity bitmap of symbolic length <= 4:  Ok <=> last offset <= values.len() /\ (no bitmap \/
 // bitmap length == 3). On Ok the accessors read back the model (value bytes, value_length, nulls).
-// @unit name=binary_try_new_iff props=C09,C01 kind=bounded bound=offsets=4_value_bytes<=6_validity<=4_bits fns=GenericByteArray::try_new,GenericBinaryType::validate,GenericByteArray::value,GenericByteArray::value_length timeout=900 mem=4
+// @unit name=binary_try_new_iff props=C09,C01 kind=bounded bound=offsets=4_value_bytes<=6_validity<=4_bits fns=GenericByteArray::try_new,GenericBinaryType::validate,GenericByteArray::value,GenericByteArray::value_length timeout=900 mem=4 tier=quick
 #[kani::proof]
 #[kani::unwind(8)]
 #[kani::stub(alloc::fmt::format, stub_format)]
@@ -241,9 +241,9 @@ macro_rules! binary_slice {
         }
     };
 }
-// @unit name=binary_slice_1_2 props=C01,C02 kind=bounded bound=rows=3_value_bytes=6_window=(1,2) fns=GenericByteArray::slice,GenericByteArray::value,GenericByteArray::value_length timeout=900 mem=4 tier=thorough note=not_confirmed_at_checkpoint
+// @unit name=binary_slice_1_2 props=C01,C02 kind=bounded bound=rows=3_value_bytes=6_window=(1,2) fns=GenericByteArray::slice,GenericByteArray::value,GenericByteArray::value_length timeout=900 mem=4 tier=quick
 binary_slice!(binary_slice_1_2, 1, 2);
-// @unit name=binary_slice_2_1 props=C01,C02 kind=bounded bound=rows=3_value_bytes=6_window=(2,1) fns=GenericByteArray::slice,GenericByteArray::value,GenericByteArray::value_length timeout=900 mem=4 tier=thorough note=not_confirmed_at_checkpoint
+// @unit name=binary_slice_2_1 props=C01,C02 kind=bounded bound=rows=3_value_bytes=6_window=(2,1) fns=GenericByteArray::slice,GenericByteArray::value,GenericByteArray::value_length timeout=900 mem=4 tier=quick
 binary_slice!(binary_slice_2_1, 2, 1);
-// @unit name=binary_slice_3_0 props=C01,C02 kind=bounded bound=rows=3_value_bytes=6_window=(3,0) fns=GenericByteArray::slice,GenericByteArray::value,GenericByteArray::value_length timeout=900 mem=4 tier=thorough note=not_confirmed_at_checkpoint
+// @unit name=binary_slice_3_0 props=C01,C02 kind=bounded bound=rows=3_value_bytes=6_window=(3,0) fns=GenericByteArray::slice,GenericByteArray::value,GenericByteArray::value_length timeout=900 mem=4 tier=quick
 binary_slice!(binary_slice_3_0, 3, 0);
